@@ -20,7 +20,9 @@ OUTSC = 2 ** 40
 TOL64 = 1e-9
 TOL32 = 1e-4
 TRUSTED = [
-    "Coq 8.16.1 kernel + vm_compute (no native_compute); all C07 theorems: Closed under the global context",
+    "Coq 8.16.1 kernel + vm_compute (no native_compute); the 28 theorems of Props.v: Closed under the global context (enforced); "
+    "C07_float_floor_half_is_exact (FloatProps.v, Flocq 4.1 binary64) uses the stdlib real-number axioms sig_forall_dec, "
+    "sig_not_dec, functional_extensionality_dep, classic",
     "hand-written model coq/C07/Model.v of fourier.fshift (rfft -> phase product -> irfft C2R, per-trace tables, axis) "
     "and utils.parabolic_max, tied to /repo/src by this run's correspondence",
     "scipy.fft.rfft/irfft compute the DFT sums with a primitive n-th root of unity w (w(a+b)=w(a)w(b), w(n)=1, "
@@ -39,6 +41,7 @@ TRUSTED = [
 ]
 
 DT = {"f64": np.float64, "f32": np.float32}
+FLOAT_THEOREMS = {"C07_float_floor_half_is_exact"}
 
 
 # --------------------------------------------------------------------------
@@ -784,6 +787,29 @@ def parab_check(ctx, st):
         if not (np.allclose(ip2, exp_ip, rtol=0, atol=1e-9) and np.allclose(mx2, exp_mx, rtol=1e-9, atol=1e-9)):
             ctx.fail("parabolic_max on a 2-D array differs row-wise from the 1-D result", {"kind": "parab", "x": arr.tolist()},
                      {"clause": "parabola_2d"})
+        # the model's 2-D branch (Run op 8 = parabolic_max_rows)
+        o8 = ex.run_many([[8, arr.shape[0], arr.shape[1]] + [int(v) for v in arr.ravel()]], nproc=1)[0]
+        mrows = [o8[6 * k: 6 * k + 6] for k in range(arr.shape[0])]
+        if len(o8) != 6 * arr.shape[0] or any(r[0] != 1 for r in mrows) or \
+                not np.allclose(ip2, [r[2] / r[3] for r in mrows], rtol=0, atol=1e-9) or \
+                not np.allclose(mx2, [r[4] / r[5] for r in mrows], rtol=1e-9, atol=1e-9):
+            ctx.disagree("parabolic_max on a 2-D array differs from the model's parabolic_max_rows",
+                         {"kind": "parab", "x": arr.tolist()})
+        # representation: float32 / integer / Fortran-ordered input give the same answer
+        for nm, arr2 in (("float32", arr.astype(np.float32)), ("int64", arr.astype(np.int64)),
+                         ("fortran", np.asfortranarray(arr)), ("row0_int32_1d", arr[0].astype(np.int32))):
+            st.evals += 1
+            try:
+                ipv, mxv = utils.parabolic_max(arr2)
+            except Exception as e:  # noqa
+                ctx.fail("parabolic_max (%s input): %s" % (nm, e), {"kind": "parab", "x": arr2.tolist()},
+                         {"kind": "exception"})
+                continue
+            st.count("parabolic_dtype_" + nm)
+            eip, emx = (exp_ip[0], exp_mx[0]) if arr2.ndim == 1 else (exp_ip, exp_mx)
+            if not (np.allclose(ipv, eip, rtol=0, atol=1e-5) and np.allclose(mxv, emx, rtol=1e-5, atol=1e-5)):
+                ctx.fail("parabolic_max on %s input differs from the float64 result" % nm,
+                         {"kind": "parab", "x": arr2.tolist()}, {"clause": "parabola_2d"})
     # exact parabola with a fractional vertex
     for _ in range(40):
         ns = ctx.rng.randrange(3, 40)
@@ -1068,6 +1094,103 @@ def delay_sweep(ctx, st):
 # --------------------------------------------------------------------------
 # round 2: axis spellings / shift containers / memory layouts
 # --------------------------------------------------------------------------
+def parameter_variation_check(ctx, st):
+    """Round 4 parameter audit: spellings of each public parameter that the other generators leave at
+    one value."""
+    fourier, utils, waveforms = impl()
+    rng = ctx.rng
+    for n in (7, 16, 31, rng.randrange(8, 120)):
+        for dt in ("f64", "f32"):
+            x = np.array([rng.randrange(-100, 101) for _ in range(n)], dtype=DT[dt])
+            sfrac = round(rng.uniform(-n, n), 6)
+            mint = rng.randrange(-n + 1, n)
+            try:
+                ref_f = fourier.fshift(x, float(sfrac))
+                ref_i = fourier.fshift(x, int(mint))
+            except Exception as e:  # noqa
+                ctx.fail("fshift: %s" % e, {"kind": "param", "n": n, "x": x.tolist(), "s": sfrac}, {"kind": "exception"})
+                continue
+            # s as every scalar type: must equal the python-float / python-int result
+            for nm, sv, ref in (("np.float64", np.float64(sfrac), ref_f), ("np.float32", np.float32(sfrac), None),
+                                ("np.int64", np.int64(mint), ref_i), ("np.int32", np.int32(mint), ref_i),
+                                ("np.int8", np.int8(max(-100, min(100, mint))), None),
+                                ("float_of_int", float(mint), ref_i), ("bool", True, None)):
+                desc = {"kind": "param", "n": n, "dtype": dt, "x": x.tolist(), "s": float(sv), "s_type": nm}
+                y = call(ctx, st, "fshift", lambda: fourier.fshift(x, sv), desc, {"clause": "scalar_shift"})
+                if y is None:
+                    continue
+                st.count("param_scalar_" + nm)
+                if ref is None:
+                    ref = call(ctx, st, "fshift", lambda: fourier.fshift(x, float(sv)), desc, {"clause": "scalar_shift"})
+                    if ref is None:
+                        continue
+                ok, err = close(y, ref, dt, 100.0)
+                if not ok:
+                    ctx.fail("fshift with the shift given as %s differs from the same value given as a python number "
+                             "(max err %.3g)" % (nm, err), desc, {"clause": "scalar_shift"})
+            # ns given explicitly (same length) or as 0 / None on a real input: same as the default
+            for nsv in (n, None, 0, np.int64(n)):
+                desc = {"kind": "param", "n": n, "dtype": dt, "x": x.tolist(), "s": sfrac, "ns": None if nsv is None else int(nsv)}
+                y = call(ctx, st, "fshift", lambda: fourier.fshift(x, sfrac, ns=nsv), desc, {"clause": "ns_param"})
+                if y is None:
+                    continue
+                st.count("param_ns")
+                ok, err = close(y, ref_f, dt, 100.0)
+                if not ok:
+                    ctx.fail("fshift(x, s, ns=%r) on a real input differs from fshift(x, s)" % (nsv,), desc, {"clause": "ns_param"})
+        # complex 2-D half spectra with per-trace shifts along the last axis and along axis 0
+        ntr = 3
+        X = np.array([rng.randrange(-50, 51) for _ in range(ntr * n)], dtype=float).reshape(ntr, n)
+        sv = np.array([round(rng.uniform(-n, n), 4) for _ in range(ntr)])
+        desc = {"kind": "param", "n": n, "x": X.ravel().tolist(), "svec": sv.tolist(), "what": "complex 2-D, per-trace, ns="}
+        st.evals += 1
+        try:
+            ref = np.stack([fourier.fshift(np.ascontiguousarray(X[i]), float(sv[i])) for i in range(ntr)])
+            W1 = scipy.fft.rfft(X, axis=-1)
+            y1 = scipy.fft.irfft(fourier.fshift(W1, sv, axis=-1, ns=n), n, axis=-1)
+            W0 = scipy.fft.rfft(np.ascontiguousarray(X.T), axis=0)
+            y0 = scipy.fft.irfft(fourier.fshift(W0, sv, axis=0, ns=n), n, axis=0).T
+            st.count("param_complex_2d")
+            if np.max(np.abs(y1 - ref)) > 1e-9 * 100 or np.max(np.abs(y0 - ref)) > 1e-9 * 100:
+                ctx.fail("frequency-domain entry on a 2-D spectrum with per-trace shifts differs from the time-domain "
+                         "shift of each trace", desc, {"clause": "complex_entry"})
+        except Exception as e:  # noqa
+            ctx.fail("fshift(complex 2-D, ns=): %s" % e, desc, {"kind": "exception"})
+    # wave_shift_corrmax: unequal lengths are refused (assert), as in the model (corrmax_shift = None)
+    st.evals += 1
+    try:
+        waveforms.wave_shift_corrmax(np.arange(8.0), np.arange(9.0))
+        ctx.disagree("wave_shift_corrmax accepts waveforms of unequal lengths (the model refuses)", {"kind": "param"})
+    except Exception:  # noqa
+        st.count("param_corrmax_unequal_refused")
+    # wave_shift_phase: fs and explicit (a_pos, b_pos) do not change the estimate; shift_waveform on float32
+    sp = -ricker(121, 6.0)
+    sp2 = None
+    try:
+        import warnings
+        with warnings.catch_warnings():
+            warnings.simplefilter("ignore")
+            sp2 = fourier.fshift(sp, 0.37)
+            e0 = waveforms.wave_shift_phase(sp, sp2, 30000.0)[1]
+            e1 = waveforms.wave_shift_phase(sp, sp2, 2500.0)[1]
+            a_pos, b_pos, _, _ = _guard(waveforms._m.get_spike_slopeparams, sp, 30000.0)
+            e2 = _scalar(_guard(waveforms._m.wave_shift_phase, sp, sp2, 30000.0, a_pos, b_pos)[1], "wave_shift_phase delay")
+        st.evals += 3
+        st.count("param_wave_shift_phase")
+        if max(abs(e0 - 0.37), abs(e1 - 0.37), abs(e2 - 0.37)) > 0.05:
+            ctx.fail("wave_shift_phase estimate depends on fs / explicit slope parameters: %r %r %r for applied 0.37"
+                     % (e0, e1, e2), {"kind": "delay_phase", "points": 121, "a": 6.0, "shift": 0.37, "amplitude": 1.0},
+                     {"clause": "delay"})
+        wav = np.stack([np.stack([fourier.fshift(sp * g, s) for g in (0.3, 1.0)]) for s in (-1.0, 0.0, 0.6)]).astype(np.float32)
+        out, applied = waveforms.shift_waveform(wav)
+        st.count("param_shift_waveform_f32")
+        if np.max(np.abs(applied + np.array([-1.0, 0.0, 0.6]))) > 0.05:
+            ctx.fail("shift_waveform on float32 input: applied shifts %s" % applied.tolist(),
+                     {"kind": "cluster", "points": 121, "a": 6.0, "shifts": [-1.0, 0.0, 0.6]}, {"clause": "realign"})
+    except Exception as e:  # noqa
+        ctx.fail("delay estimators (parameter variations): %s" % e, {"kind": "param"}, {"kind": "exception"})
+
+
 def axis_spelling_check(ctx, st):
     """Per-trace shifts on non-square 2-D arrays (including ntr == n//2 + 1, where a shift vector laid
     along the wrong axis still broadcasts), every spelling of the axis (python / NumPy integers,
@@ -1321,7 +1444,11 @@ def roll_correspondence(ctx, st):
 
 
 def run(ctx):
-    common.proof_obligations(ctx, whitelist=[])
+    common.proof_obligations(ctx, whitelist=sorted(common.STDLIB_AXIOMS), modules=("Props", "FloatProps"))
+    # only the Flocq statement of FloatProps.v may use the real-number axioms; everything else stays closed
+    for name, ax in list(ctx.theorems.items()):
+        if name not in FLOAT_THEOREMS and ax != "Closed under the global context":
+            ctx.broken_proofs.append({"theorem": name, "why": "no longer closed under the global context: %s" % (ax,)})
     st = Stats()
     cases = gen_model_cases(ctx)
     kept = model_correspondence(ctx, st, cases)
@@ -1344,6 +1471,7 @@ def run(ctx):
     corr_check(ctx, st)
     delay_sweep(ctx, st)
     axis_spelling_check(ctx, st)
+    parameter_variation_check(ctx, st)
     freq_check(ctx, st)
     cross_check(ctx, st)
     cluster_check(ctx, st)
